@@ -1,5 +1,6 @@
+from xeng import progs, progs2, progs3
 from . import _common
 
 
 def run(out):
-    _common.run(out, 'C11', s_props=['C11'])
+    _common.run(out, 'C11', x=[], s_props=['C11'])
